@@ -141,12 +141,6 @@ func validateValue(option *Option, value interface{}) (*valueCache, *ValidationE
 		if option.OptType != OptTypeInt {
 			return nil, invalid(option, "expected type %s, got type %T", getTypeName(option.OptType), v)
 		}
-		if option.compiledRegex != nil {
-			// we need to use %v here so we handle float and int correctly.
-			if !option.compiledRegex.MatchString(fmt.Sprintf("%v", v)) {
-				return nil, invalid(option, "did not match validation regex")
-			}
-		}
 		switch v := value.(type) {
 		case int:
 			validated = &valueCache{intVal: int64(v)}
@@ -182,6 +176,13 @@ func validateValue(option *Option, value interface{}) (*valueCache, *ValidationE
 			}
 		default:
 			return nil, invalid(option, "internal error")
+		}
+		// Match the regex against the integer, not against the formatting of
+		// the received type (a JSON-decoded 1000000 is the float64 "1e+06").
+		if option.compiledRegex != nil {
+			if !option.compiledRegex.MatchString(fmt.Sprintf("%d", validated.intVal)) {
+				return nil, invalid(option, "did not match validation regex")
+			}
 		}
 	case bool:
 		if option.OptType != OptTypeBool {
